@@ -10,6 +10,7 @@ vars == <<W, cap, cache, last, hist>>
 R(status, ct, body, loc) == [status |-> status, ct |-> ct, body |-> body, loc |-> loc]
 Plain == { R(200, <<"activity">>, "obj", ""), R(203, <<"jrd">>, "obj", ""), R(200, <<"json">>, "obj", ""),
            R(204, <<"activity">>, "obj", ""), R(404, <<"html">>, "garbage", ""), R(200, <<"html">>, "obj", ""),
+           R(200, <<"wild">>, "obj", ""),     \* a wildcard media type (*/*, application/*) is not a JSON media type
            R(200, <<>>, "obj", ""), R(200, <<"activity">>, "array", ""), R(0, <<"activity">>, "obj", ""),
            R(302, <<>>, "empty", ""), R(-1, <<>>, "empty", "") }
 Small == { R(200, <<"activity">>, "obj", ""), R(203, <<"jrd">>, "obj", ""), R(404, <<"html">>, "garbage", "") }
